@@ -327,10 +327,14 @@ PROPS['C01'] = dict(
     theorems=[
         ('RTFacts', 'roundtrip_fragment', 'THE theorem: by induction over the construct syntax, every construct of the closed sequential fragment (frag, a decidable predicate) round-trips - at any nesting depth, at any stream position, with any trailing data (RT) or at the end of a delimited region (RTe).'),
         ('RTFacts', 'C01_build_then_parse', 'On the public entry points: whatever build emits, parse accepts and returns a value contained in what build returned (derived members filled in), in any keyword context.'),
-        ('DepRT', 'dep_roundtrip', 'DEPENDENT layouts, by induction over the syntax: the fragment dfrag extends frag with Structs whose members are sized by the integer fields before them - Bytes(this.n), Array(this.n, x), Padded(this.n, x), FixedSized(this.n, x) - to any nesting depth (such a struct reads only its own scope, so it is closed again and may sit inside Array, Prefixed, Padded, ... and other structs). Every construct of dfrag round-trips at any position with any trailing data.'),
+        ('DepRT', 'dep_roundtrip', 'DEPENDENT layouts, by induction over the syntax: the fragment dfrag extends frag with Structs whose members are sized by the integer fields before them - Bytes(this.n), Array(this.n, x), Padded(this.n, x), FixedSized(this.n, x) - or CHOSEN by them - Switch(this.k, {...}, default), IfThenElse(this.k, a, b), with branches that are sized or closed - to any nesting depth (such a struct reads only its own scope, so it is closed again and may sit inside Array, Prefixed, Padded, ... and other structs). Every construct of dfrag round-trips at any position with any trailing data.'),
         ('DepRT', 'C01_build_then_parse_dependent', 'On the public entry points for the dependent fragment.'),
         ('DepRT', 'RT_dstruct', 'The dependent Struct lemma: integer fields define names (the built value in the build context, the parsed value in the parse context: the same integer), later members read them through this.name and agree on both sides.'),
         ('DepRT', 'eval_this', 'this.n evaluates to the integer the scope holds for n.'),
+        ('DepRT', 'build_switch', 'A Switch on a known integer field is the branch pick z cases default, when building ...'),
+        ('DepRT', 'parse_switch', '... and when parsing: the same branch, because the parsed field is the built integer.'),
+        ('DepRT', 'ex_tlv_in_fragment', 'A tag-length-value record (payload chosen by the tag, sized by the length, an optional trailer) is in dfrag.'),
+        ('DepRT', 'ex_tlv_runs', 'It builds and parses back (kernel-evaluated).'),
         ('DepRT', 'ex_dep_in_fragment', 'A header with two counts, a payload sized by the first, records counted by the second each with its own length field and a constant, a trailer padded to the first: in dfrag, not in frag.'),
         ('RTFacts', 'RT_struct', 'Struct: preservation lemma (members round-trip, names distinct => the Struct round-trips).'),
         ('RTFacts', 'RT_sequence', 'Sequence: preservation lemma.'),
@@ -365,8 +369,19 @@ Proof. split; vm_compute; reflexivity. Qed.
 
 PROPS['C02'] = dict(
     title='C02 - re-encoding parsed data is canonical and stable',
-    requires=['ConInd'],
+    requires=['ConInd', 'RTFacts', 'DepRT'],
     theorems=[
+        ('Stable', 'rebuild_fragment', 'THE theorem (build after parse is stable), by induction over the construct syntax: for every construct of the closed sequential fragment whose Struct members are named (sfrag, decidable; any depth), when a value builds to some bytes, the value those bytes parse to - at any stream position, with any trailing data, in any context - builds to exactly the same bytes again.'),
+        ('Stable', 'C02_reproduced_exactly', 'On the public entry points: bytes the construct itself produced are reproduced exactly by build(parse(.)), in any keyword contexts.'),
+        ('Stable', 'C02_reencoding_is_idempotent', 'Idempotence: for ANY accepted input, canonical or not, once build has accepted what parse returned, one more parse/build changes nothing - the first re-encoding is the canonical one.'),
+        ('StableDep', 'dep_rebuild', 'The same for DEPENDENT layouts (DepRT.dfrag with named members): members sized by earlier integer fields (Bytes/Array/Padded/FixedSized of this.n) and members chosen by them (Switch / IfThenElse on this.k). The size and the choice are the same in the first build, in the parse and in the second build, because an integer field parses to the integer that was built.'),
+        ('StableDep', 'C02_reproduced_exactly_dependent', 'On the public entry points for the dependent fragment.'),
+        ('Stable', 'RB_struct', 'Struct: members rebuild and are named, names distinct => the Struct rebuilds (the parsed dictionary holds, under each name, what that member parsed to).'),
+        ('Stable', 'RB_prefixed', 'Prefixed: the length field is rebuilt from the rebuilt payload, which has the same length.'),
+        ('Stable', 'RB_padded', 'Padded: the padding is rebuilt from the pattern, whatever the input had there.'),
+        ('Stable', 'ex_stable_in_fragment', 'Non-vacuity: a header, a VarInt-prefixed payload, an array of 3-byte integers, a padded constant, a VarInt.'),
+        ('Stable', 'ex_stable_normalises', 'On a NON-canonical input of that construct (redundant VarInt continuation bytes, non-zero padding) the first re-encoding differs from the input and the second equals the first (kernel-evaluated).'),
+        ('StableDep', 'ex_tlv_stable', 'The same on a tag-length-value record (payload chosen by the tag, sized by the length).'),
         ('RTFacts', 'C01_roundtrip_closed', 'Bytes the construct itself produced are reproduced: for the closed sequential fragment what build emits parses back to (a value contained in) what was built, consuming exactly those bytes.'),
         ('PrimFacts', 'bytesint_parse_then_build', 'Integers of every width have exactly one accepted encoding: parse then build reproduces the input bytes.'),
         ('PrimFacts', 'varint_normalises', 'VarInt: every well-formed encoding (minimal or not) is accepted, re-encoded as the canonical one, which parses to the same value.'),
@@ -391,7 +406,10 @@ PROPS['C06'] = dict(
         ('TruncFacts', 'C06_truncated_rejected', 'The same on the public entry points: parse(build(v)[:k]) raises StreamError for every k < len.'),
         ('ErrFacts', 'parse_only_construct_errors', 'For EVERY construct of the closed sequential fragment (any depth) and EVERY input - any bytes, any position, truncated or not - parse returns a value or fails with a ConstructError subclass; no foreign exception comes out (the model\'s own meta outcomes apart).'),
         ('ErrFacts', 'C06_only_construct_errors', 'The same on the public entry point parse(data, **kw).'),
-        ('ErrDep', 'dep_parse_only_construct_errors', 'The same for DEPENDENT layouts (DepRT.dfrag: structs whose members are sized by the integer fields before them, any depth): the size expressions cannot fail - the field they name has been parsed, to an integer - and a negative size is a RangeError / PaddingError / StreamError.'),
+        ('TruncDep', 'dep_truncation', 'Truncation for DEPENDENT layouts (DepRT.dfrag): every strict prefix of what such a construct builds is rejected with StreamError - the members before the cut parse back to what was built, so the sizes and choices later members read are the built ones, and the member the cut falls in runs out of data.'),
+        ('TruncDep', 'C06_truncated_rejected_dependent', 'On the public entry points for the dependent fragment.'),
+        ('TruncDep', 'ex_tlv_truncated', 'Every strict prefix of a built tag-length-value record is rejected (kernel-evaluated).'),
+        ('ErrDep', 'dep_parse_only_construct_errors', 'The same for DEPENDENT layouts (DepRT.dfrag: structs whose members are sized by the integer fields before them or chosen by them through Switch / IfThenElse, any depth): the size and key expressions cannot fail - the field they name has been parsed, to an integer - and a negative size is a RangeError / PaddingError / StreamError.'),
         ('ErrDep', 'C06_dependent_only_construct_errors', 'On the public entry point for the dependent fragment.'),
         ('StreamFacts', 'iread_discipline', 'A read either succeeds or is StreamError.'),
         ('StreamFacts', 'iread_exact', 'No value is produced from fewer bytes than requested: a successful read returns exactly the requested number of bytes.'),
@@ -553,6 +571,13 @@ PROPS['C19'] = dict(
         ('KsyFacts', 'ifield_flat', 'Every flat member: whatever the construct parses at any position, the schema field reads the same bytes to the same value (a constant to its bytes).'),
         ('KsyFacts', 'ksy_describes_flat_struct', 'For every such Struct and EVERY byte string it parses: reading the emitted schema succeeds and assigns every field the same identifier, the same byte extent and the same value as the construct.'),
         ('KsyFacts', 'ex_flat_members', 'The hypothesis is satisfiable: a struct with every flat kind.'),
+        ('KsyNest', 'ksy_describes_nested_struct', 'NESTED structs: for every Struct whose named members are flat fields or, to any depth up to 20 (the fuel of the reference reading), Structs of such members, and EVERY byte string it parses: the exporter succeeds, and reading the emitted schema assigns every field, at every level, the same identifier, the same byte extent and the same value as the construct (a nested Struct: the dictionary of its records).'),
+        ('KsyNest', 'emit_nested', 'Emission of a member from ANY generator state: the helper types are appended (older entries are never disturbed), every new type is named type_<k> with a fresh k, and the emitted field describes the member under the resulting type table.'),
+        ('KsyNest', 'tname_inj', 'Helper type names are injective in the allocated id (decimal printing has a left inverse), so a later type never shadows an earlier one in the lookup.'),
+        ('KsyNest', 'read_nested', 'Reading: whatever a described member parses at any position, the schema field reads the same bytes to the related value, with fuel 2 + 3 * depth.'),
+        ('KsyNest', 'struct_layout', 'The dictionary a Struct returns is its layout records, in order.'),
+        ('KsyNest', 'ex_nested_members', 'Non-vacuity: records inside records inside a header.'),
+        ('KsyNest', 'ex_nested_runs', 'Its schema has three helper types and reads an input to the same four top-level records (kernel-evaluated).'),
     ],
     examples='''
 Example C19_ex_flat :
